@@ -94,45 +94,48 @@ def _result_switches(body, call_bb):
 def rule_r3(facts, col):
     """per-repetition marker tags are created only at repetition start"""
     rb = repeat_blocks(facts)
-    for body in facts.impl_bodies(BLOCK_TRAIT, "work"):
-        if body.self_adt not in rb:
+    cg = CallGraph(facts)
+    for work in facts.impl_bodies(BLOCK_TRAIT, "work"):
+        if work.self_adt not in rb:
             continue
-        tagcalls = [(bb, t) for bb, t in body.calls_to(TAG_NEW)]
-        if not tagcalls:
-            continue
-        # progress field: a self field assigned const 0 somewhere in this body (reset at repetition end)
+        # work() and the block's own helper methods it (transitively) calls
+        reach = cg.reachable_bodies([work.q])
+        scope = [b for b in facts.bodies if b.q in reach and (b is work or (b.self_adt == work.self_adt and b.kind != "closure"))]
+        # progress field: a self field assigned const 0 somewhere in the block's code (reset at repetition end)
         resets = set()
-        for bb, blk in enumerate(body.blocks):
-            for s in blk["stmts"]:
-                if s["k"] == "assign" and s["dst"]["p"] and s["dst"]["p"][0] == "*" and s["dst"]["l"] == 1:
-                    e = body.rvalue_expr(s["rv"])
-                    if is_const(peel(e, through_try=False), 0) and isinstance(s["dst"]["p"][-1], dict):
-                        resets.add(s["dst"]["p"][-1].get("n"))
-        for bb, t in tagcalls:
-            keyname = peel(body.operand_expr(t["args"][1]))
-            kn = (keyname.name or "?") if keyname.k == "const" else "?"
-            key = "%s:tag(%s)" % (body.q, kn.strip('"').replace("const ", ""))
-            ok = False
-            for fact in facts_at(body, bb):
-                if fact[0] in ("Eq",) and _const_is(fact[2], 0):
-                    fp = self_field_path(fact[1])
-                    if fp and fp[-1] in resets:
-                        ok = True
-                if fact[0] in ("Eq",) and _const_is(fact[1], 0):
-                    fp = self_field_path(fact[2])
-                    if fp and fp[-1] in resets:
-                        ok = True
-                if fact[0] == "IntEq" and fact[2] == 0:
-                    fp = self_field_path(fact[1])
-                    if fp and fp[-1] in resets:
-                        ok = True
-            if ok:
-                col.ok("C16.R3", key, body.where(bb), "marker tag only created at repetition start (progress field == 0)")
-            else:
-                col.bad("C16.R3", key, body.where(bb),
-                        "a per-repetition marker tag is created on a path that is not restricted to the start of a "
-                        "repetition (progress field == 0): when a repetition is emitted in several pieces the marker is "
-                        "repeated on every piece", {})
+        for body in scope:
+            for bb, blk in enumerate(body.blocks):
+                for s in blk["stmts"]:
+                    if s["k"] == "assign" and s["dst"]["p"] and s["dst"]["p"][0] == "*" and s["dst"]["l"] == 1:
+                        e = body.rvalue_expr(s["rv"])
+                        if is_const(peel(e, through_try=False), 0) and isinstance(s["dst"]["p"][-1], dict):
+                            resets.add(s["dst"]["p"][-1].get("n"))
+        for body in scope:
+            for bb, t in body.calls_to(TAG_NEW):
+                keyname = peel(body.operand_expr(t["args"][1]))
+                kn = (keyname.name or "?") if keyname.k == "const" else "?"
+                key = "%s:tag(%s)" % (work.q, kn.strip('"').replace("const ", ""))
+                ok = False
+                for fact in facts_at_with_callers(facts, body, bb):
+                    if fact[0] in ("Eq",) and _const_is(fact[2], 0):
+                        fp = self_field_path(fact[1])
+                        if fp and fp[-1] in resets:
+                            ok = True
+                    if fact[0] in ("Eq",) and _const_is(fact[1], 0):
+                        fp = self_field_path(fact[2])
+                        if fp and fp[-1] in resets:
+                            ok = True
+                    if fact[0] == "IntEq" and fact[2] == 0:
+                        fp = self_field_path(fact[1])
+                        if fp and fp[-1] in resets:
+                            ok = True
+                if ok:
+                    col.ok("C16.R3", key, body.where(bb), "marker tag only created at repetition start (progress field == 0)")
+                else:
+                    col.bad("C16.R3", key, body.where(bb),
+                            "a per-repetition marker tag is created on a path that is not restricted to the start of a "
+                            "repetition (progress field == 0): when a repetition is emitted in several pieces the marker is "
+                            "repeated on every piece", {})
 
 
 def _const_is(e, v):
